@@ -17,6 +17,7 @@
 #include <algorithm>
 #include <cfloat>
 #include <cstdlib>
+#include <cstring>
 #include <map>
 #include <set>
 #include <stdexcept>
@@ -497,6 +498,49 @@ static void run_dataset(const Dataset & d, const std::string & root, bool do_rej
           r1 = 0.5;
         }
         check_event(g, d, "itm", {r1, r2}, d.seed + 17 * k + 1);
+      }
+    }
+  }
+
+  // ---- 3b. object re-use: ONE dbd_gA object serves every dataset of the job in turn (reset, other nuclide / process / shooting
+  //      method, initialise again) and must shoot exactly what a fresh object shoots on the same deviates
+  if (do_itm && tables_ok) {
+    static dbd_gA reused;
+    static long nreuse = 0;
+    bool rej = do_rej && d.nrej > 0 && (nreuse % 2 == 1);
+    dbd_gA fresh;
+    bool ok = true;
+    try {
+      if (reused.is_initialized()) reused.reset();
+      for (dbd_gA * g : {&reused, &fresh}) {
+        g->set_dataset_version(d.version);
+        g->set_nuclide(d.nuclide);
+        g->set_process(proc_of(d.process));
+        g->set_shooting(rej ? dbd_gA::SHOOTING_REJECTION : dbd_gA::SHOOTING_INVERSE_TRANSFORM_METHOD);
+        g->initialize();
+      }
+    } catch (std::exception & x) {
+      violate("reuse:init:throws", d.id, std::string("a dbd_gA object that served another dataset before cannot be reset and initialised again: ") + x.what());
+      ok = false;
+    }
+    nreuse++;
+    for (int k = 0; ok && k < 24; k++) {
+      vh::scripted s1(d.seed * 131 + k), s2(d.seed * 131 + k);
+      s1.max_draws = s2.max_draws = 3000000;
+      double a1 = 0, a2 = 0, b1 = 0, b2 = 0;
+      try {
+        reused.shoot_e1_e2(s1, a1, a2);
+        fresh.shoot_e1_e2(s2, b1, b2);
+      } catch (std::exception & x) {
+        violate("reuse:shoot:throws", d.id, x.what());
+        break;
+      }
+      counters["reuse_shots"]++;
+      if (std::memcmp(&a1, &b1, sizeof a1) != 0 || std::memcmp(&a2, &b2, sizeof a2) != 0 || s1.log.size() != s2.log.size()) {
+        violate("reuse:history-dependent", d.id,
+                "a dbd_gA object re-initialised for this dataset after serving others shoots (" + fmt(a1) + "," + fmt(a2) + ") with "
+                  + std::to_string(s1.log.size()) + " deviates, a fresh object (" + fmt(b1) + "," + fmt(b2) + ") with " + std::to_string(s2.log.size()));
+        break;
       }
     }
   }
